@@ -49,20 +49,18 @@ def _run_shard(args):
 
 
 def known_findings():
-    path = os.path.join(ROOT, "known_findings.jsonl")
+    path = os.path.join(ROOT, "known_findings.txt")
     out = []
     if os.path.exists(path):
         for line in open(path):
             line = line.strip()
-            if line and not line.startswith("#"):
-                out.append(json.loads(line))
+            if line.startswith("known:"):
+                out.append(json.loads(line[len("known:"):]))
     return out
 
 
 def match_known(pid, shard, sig):
     for k in known_findings():
-        if k.get("status") == "fixed":
-            continue
         if k["property"] == pid and fnmatch.fnmatchcase(f"{shard}:{sig}", k["match"]):
             return k
     return None
@@ -130,6 +128,7 @@ def main(pid, tier, seed, jobs=None):
     results.sort(key=lambda r: names.index(r["shard"]))
 
     violations, known_hits, harness_errors, nonrepro = [], [], [], []
+    todo = []
     for r in results:
         sh = by_name[r["shard"]]
         if r.get("error"):
@@ -139,20 +138,32 @@ def main(pid, tier, seed, jobs=None):
                 if case.get("values") is None:
                     harness_errors.append(dict(shard=r["shard"], error="no model for " + case["sig"]))
                     continue
-                path = write_replay(pid, sh, case, kind)
-                verdict = run_replay(path)
-                rec = dict(shard=r["shard"], sig=case["sig"], msg=case["msg"], replay=path, verdict=verdict, kind=kind)
-                if verdict.get("reproduced"):
-                    k = match_known(pid, r["shard"], case["sig"])
-                    if k:
-                        rec["known"] = k["what"]
-                        known_hits.append(rec)
-                    else:
-                        violations.append(rec)
-                else:
-                    if kind == "crash" and case.get("where") != "repo":
-                        rec["trace"] = case.get("trace")
-                    nonrepro.append(rec)
+                todo.append((r["shard"], kind, case, write_replay(pid, sh, case, kind)))
+    # replay every recorded counterexample on the real code (clean interpreter), in parallel; cases that match a
+    # known finding are always replayed; of the others at most MAX_REPLAY are replayed and reported
+    MAX_REPLAY = 12
+    kn = [t for t in todo if match_known(pid, t[0], t[2]["sig"])]
+    other = [t for t in todo if not match_known(pid, t[0], t[2]["sig"])]
+    skipped = max(0, len(other) - MAX_REPLAY)
+    from concurrent.futures import ThreadPoolExecutor
+    sel = kn + other[:MAX_REPLAY]
+    with ThreadPoolExecutor(max_workers=8) as ex:
+        verdicts = list(ex.map(lambda t: run_replay(t[3]), sel))
+    for (shard_name, kind, case, path), verdict in zip(sel, verdicts):
+        rec = dict(shard=shard_name, sig=case["sig"], msg=case["msg"], replay=path, verdict=verdict, kind=kind)
+        if verdict.get("reproduced"):
+            k = match_known(pid, shard_name, case["sig"])
+            if k:
+                rec["known"] = k["what"]
+                known_hits.append(rec)
+            else:
+                violations.append(rec)
+        else:
+            if kind == "crash":
+                rec["trace"] = case.get("trace")
+            nonrepro.append(rec)
+    if skipped:
+        print(f"({skipped} further counterexamples recorded under replays/{pid}/ were not replayed)")
 
     tot = lambda k: sum(r.get(k, 0) or 0 for r in results)  # noqa: E731
     wit = {}
